@@ -17,6 +17,7 @@ import (
 	"verif/props/ops"
 	"verif/sim/canon"
 	"verif/sim/core"
+	"verif/sim/gen"
 	"verif/sim/pool"
 	"verif/sim/racelog"
 	"verif/sim/sched"
@@ -118,11 +119,27 @@ func (p *P) Run(src *tape.Source, trace bool) *core.Result {
 			enabled = []ops.Kind{ops.Parse}
 		}
 	}
+	// a shared workload: half of the operations take their input from a small
+	// per-run pool, so that several tasks work on the very same query (same
+	// error text, same cache key, same metrics bucket) at the same time
+	shared := make([]string, 1+src.Intn(3, "c10.nshared"))
+	for i := range shared {
+		if src.Intn(2, "c10.sharedkind") == 1 {
+			shared[i] = gen.G{S: src}.FaultLike()
+		} else {
+			shared[i] = gen.G{S: src}.Any()
+		}
+	}
 	work := make([][]*cell, nTasks)
 	for t := range work {
 		n := 1 + src.Intn(5, "c10.nops")
 		for i := 0; i < n; i++ {
-			work[t] = append(work[t], &cell{op: ops.Gen(src, enabled), purge: src.Intn(12, "c10.purge") == 11})
+			op := ops.Gen(src, enabled)
+			if op.SQL != "" && op.Kind != ops.Suggest && src.Intn(2, "c10.useshared") == 1 {
+				op.SQL = shared[src.Intn(len(shared), "c10.whichshared")]
+				r.Probes["operation-on-shared-input"]++
+			}
+			work[t] = append(work[t], &cell{op: op, purge: src.Intn(12, "c10.purge") == 11})
 		}
 	}
 	pol := sched.PickPolicy(src)
